@@ -237,6 +237,12 @@ func (r *Report) finish(verifDir string, seed int, start time.Time, w *World, cm
 	for k, v := range r.Extra {
 		cov[k] = v
 	}
+	if r.Assumptions == nil {
+		r.Assumptions = []string{}
+	}
+	if r.Notes == nil {
+		r.Notes = []string{}
+	}
 	ev := map[string]any{
 		"property_id": r.Prop,
 		"tier":        r.Tier,
